@@ -162,12 +162,16 @@ def check_cases(ck: core.Check, cases, kinds: set[str], prop_desc: str, direct=N
             real_lines.append(f"render_list {enodes(ns)} {i} {es(e)} {eb(aw)} {eb(esc)}")
             marked_lines.append(f"render_list {enodes(mns)} {i} {es(e)} {eb(aw)} {eb(esc)}")
             contrib_lines.append(f"contribs_list {enodes(ns)} {eb(esc)}")
-    real = core.impl_many(real_lines)
+    # process history: a fraction of the cases is evaluated after its twin / after a rendering that raised, in one process
+    import gen as _gen
+    sent_lines = [_gen.with_history(ck.rng, l) for l in real_lines]
+    ck.tagc("after-history", sum(1 for l in sent_lines if l.startswith("after ")))
+    real = core.impl_many(sent_lines)
     marked = core.impl_many(marked_lines)
     contribs = ck.driver.run(contrib_lines)
     from wire import ds
     n_slot_fail = [0]
-    for line, r, m, cb in zip(real_lines, real, marked, contribs):
+    for line0, line, r, m, cb in zip(real_lines, sent_lines, real, marked, contribs):
         ck.holds_checked += 1
         if not (r.startswith("ok ") and m.startswith("ok ")):
             if r != m:
@@ -181,7 +185,7 @@ def check_cases(ck: core.Check, cases, kinds: set[str], prop_desc: str, direct=N
         exp = substitute(ms, cs)
         if exp == rs:
             continue
-        what, info = walk_output(ms, rs, slot_origs(line), cs)
+        what, info = walk_output(ms, rs, slot_origs(line0), cs)
         if what == "ok":
             # every slot holds a valid escape / the verbatim content, only not the bytes the model writes
             ck.failures.append(core.Failure("correspondence", line=line, impl=r, model="ok " + es(exp),
@@ -211,7 +215,7 @@ def check_cases(ck: core.Check, cases, kinds: set[str], prop_desc: str, direct=N
             # a slot of a kind owned by a sibling property (C02/C03/C04): reported by that property's check
             continue
         # no alignment: the layout itself depends on content -> skeleton correspondence broken; try the direct statement
-        verdict = direct(line, rs) if direct else None
+        verdict = direct(line0, rs) if direct else None
         if verdict is False:
             ck.py_violation(line, r, f"{prop_desc}: direct statement fails on the real output", py=f"marked rendering: {ms!r}")
         else:
